@@ -50,7 +50,7 @@ func (e event) coq() string {
 	case evBW:
 		return fmt.Sprintf("EvBW %d %s", e.A, resName(e.B))
 	case evStart:
-		return fmt.Sprintf("EvStart %d %d (%s)", e.A, e.B, vx.Z(e.O))
+		return fmt.Sprintf("EvStart %d %d %d (%s)", e.A, e.A, e.B, vx.Z(e.O)) // worker id = id of the registering call
 	case evCancel:
 		return fmt.Sprintf("EvCancel %d", e.A)
 	case evReturn:
@@ -829,6 +829,9 @@ func directed() [][2]any {
 		// D20c: Start is inside its critical section when ShutdownAndWait arrives
 		{[]call{bw(0, 3, kOnCancel), bw(1, 1, kFree), {Kind: cStart}, {Kind: cShut, Sync: true}, {Kind: cShut, Sync: false}},
 			[]op{{opGo, 0, 0}, {opGo, 1, 0}, {opSteps, 2, 3}, {opGo, 3, 0}, {opGo, 4, 0}, {opGo, 2, 0}, {opRelease, 1, 0}}},
+		// a registration that begins while Start holds the lock and the stopped flag is already set returns at once
+		{[]call{bw(0, 0, kOnCancel), {Kind: cStart}, {Kind: cShut, Sync: true}, bw(1, 0, kOnCancel)},
+			[]op{{opGo, 0, 0}, {opSteps, 1, 3}, {opGo, 2, 0}, {opGo, 3, 0}, {opGo, 1, 0}}},
 		// ties are cancelled together, a lower order waits for the whole group
 		{[]call{{Kind: cStart}, bw(0, 2, kFree), bw(1, 2, kFree), bw(2, 2, kOnCancel), bw(3, -1, kOnCancel), {Kind: cShut, Sync: true}},
 			[]op{{opGo, 0, 0}, {opGo, 1, 0}, {opGo, 2, 0}, {opGo, 3, 0}, {opGo, 4, 0}, {opGo, 5, 0}, {opRelease, 1, 0}, {opRelease, 2, 0}}},
@@ -876,7 +879,7 @@ func histOK(evs []event) (bool, bool, string) {
 					hist, why = false, fmt.Sprintf("event %d: BackgroundWorker call %d begun after a shutdown returned was accepted", i, e.A)
 				}
 				for v, w := range started {
-					if w.name == nameOf[e.A] && !w.returned {
+					if w.name == nameOf[e.A] && v != e.A && !w.returned {
 						hist, why = false, fmt.Sprintf("event %d: name %d registered by call %d while worker %d of that name has not returned", i, w.name, e.A, v)
 					}
 				}
